@@ -641,10 +641,40 @@ fn enumerate(ctx: &mut Ctx) {
     }
 }
 
+/// Every unit of the database x a few magnitudes x all six operators: a tag that *is* the literal (same magnitude, same
+/// unit) satisfies `==`, `<=`, `>=` and no other comparison - whatever the unit's scale and offset are (a comparison that
+/// converts one side on its way loses this for degrees Fahrenheit, feet or percent). Goes through `check_case`, so the
+/// parser route, the grid route and the resolver routes see each of these cases as well.
+fn same_unit_equal(ctx: &mut Ctx) {
+    const MAGS: [f64; 8] = [70.0, 0.1, 1.0 / 3.0, 98.6, -40.0, 1e-7, 12345.678, 3.0];
+    let units: Vec<Vec<String>> = unit_table().iter().map(|(_, u)| u.ids.clone()).collect();
+    for (ui, ids) in units.iter().enumerate() {
+        for (mi, m) in MAGS.iter().enumerate() {
+            // two magnitudes per unit and operator keep the pass at a few thousand cases
+            if (ui + mi) % 4 != 0 {
+                continue;
+            }
+            for op in OPS {
+                let lit = RVal::Num(m.to_bits(), Some(ids.clone()));
+                let mut r = RDict::new();
+                r.insert("c".to_string(), lit.clone());
+                r.insert("dis".to_string(), RVal::Str("x".into()));
+                let c = FCase { filter: FOr(vec![FAnd(vec![FTerm::Cmp(vec!["c".to_string()], op, lit)])]), records: vec![r], store: BTreeMap::new(), choices: vec![] };
+                ctx.rec.evals += 1;
+                let v = check_case(&c, &mut ctx.rec);
+                ctx.rec.class("same-unit-equal");
+                ctx.rec.nontrivial(key_of(&format!("same-unit-equal:{ui}:{mi}:{}", op.text())));
+                ctx.report("filter-eval", v, c.to_json());
+            }
+        }
+    }
+}
+
 pub fn run(ctx: &mut Ctx) {
-    ctx.rule("generated: (filter AST with every term kind, every literal kind the syntax admits, paths of 1-4 segments, and/or/paren nesting; 1-3 records whose tags are steered near the filter's literals: equal, equal-but-for-the-display-name (Refs), same magnitude in a sibling unit (EUR/USD, Hz/per_second) or no unit, just above, just below, other kind, missing, Null, NaN, +-INF, list containing / not containing it, nested dicts; a small ref store with cycles) - the libhaystack Filter is built from the AST through the public node fields (and also through text -> parser); oracle: a direct evaluator of the statement (Tri-valued: comparisons of Numbers with different units are left open and only counted); grids: filter_all returns exactly the accepted rows in order, filter the first; exhaustive slice: all filters of size <= 2 (and, for a reduced term set, size 3 in all four and/or/paren shapes) over names {id,dis,c}, literals {1, 2m, \"x\", true, @r}, all six operators against all 512 records over an 8-value universe (absent, 1, 2m, \"x\", true, @r, NaN, [1,\"x\"]), plus, per filter, all 512 records as the rows of one grid (filter_all = exactly the accepted rows in order, filter = the first); non-trivial: filter has a comparison, `not` or `->` and some path resolves; distinct by (filter text, record)");
+    ctx.rule("generated: (filter AST with every term kind, every literal kind the syntax admits, paths of 1-4 segments, and/or/paren nesting; 1-3 records whose tags are steered near the filter's literals: equal, equal-but-for-the-display-name (Refs), same magnitude in a sibling unit (EUR/USD, Hz/per_second) or no unit, just above, just below, other kind, missing, Null, NaN, +-INF, list containing / not containing it, nested dicts; a small ref store with cycles) - the libhaystack Filter is built from the AST through the public node fields (and also through text -> parser); oracle: a direct evaluator of the statement (Tri-valued: comparisons of Numbers with different units are left open and only counted); grids: filter_all returns exactly the accepted rows in order, filter the first; exhaustive slice: all filters of size <= 2 (and, for a reduced term set, size 3 in all four and/or/paren shapes) over names {id,dis,c}, literals {1, 2m, \"x\", true, @r}, all six operators against all 512 records over an 8-value universe (absent, 1, 2m, \"x\", true, @r, NaN, [1,\"x\"]), plus, per filter, all 512 records as the rows of one grid (filter_all = exactly the accepted rows in order, filter = the first); every unit of the database x two of eight magnitudes x six operators with the tag equal to the literal (same magnitude, same unit: exactly ==, <=, >= hold); non-trivial: filter has a comparison, `not` or `->` and some path resolves; distinct by (filter text, record)");
     ctx.assume("Ref equality ignores the display name and timestamps compare by instant (Haystack semantics); ^symbol / relationship terms are decided by C13 and evaluate to false against the empty default namespace");
     enumerate(ctx);
+    same_unit_equal(ctx);
     let depth = ctx.tier.pick(2, 3) as u32;
     ctx.run_sub::<FCase>("filter-eval", ctx.tier.pick(160_000, 3_200_000), &move || fcase(depth), &check_case);
 }
